@@ -27,7 +27,7 @@ import (
 // ---------------------------------------------------------------- uploads
 
 var writePaths = []string{"http", "http_zstd", "batch", "batch_zstd", "bs", "bs_zstd",
-	"splice", "splice_nodigest", "ac_file", "ac_stdout", "ac_stderr", "fetch", "fetch_nosri"}
+	"splice", "splice_nodigest", "ac_file", "ac_file_second", "ac_stdout", "ac_stderr", "fetch", "fetch_nosri"}
 
 func pathIsZstd(p string) bool { return strings.HasSuffix(p, "_zstd") }
 
@@ -296,7 +296,7 @@ func (f *fx) upload(u upReq) upRes {
 			return upRes{status: grpcStatus(err)}
 		}
 		return upRes{ok: true, status: "OK", digest: resp.BlobDigest}
-	case "ac_file", "ac_stdout", "ac_stderr":
+	case "ac_file", "ac_file_second", "ac_stdout", "ac_stderr":
 		var d *pb.Digest
 		if !u.omitDigest {
 			d = &pb.Digest{Hash: u.hash, SizeBytes: u.size}
@@ -308,6 +308,12 @@ func (f *fx) upload(u upReq) upRes {
 			if d == nil {
 				// a nil digest on an output file does not validate; use the true one
 				ar.OutputFiles[0].Digest = &pb.Digest{Hash: vlib.Sha(u.wire), SizeBytes: int64(len(u.wire))}
+			}
+		case "ac_file_second":
+			// the inlined file is listed AFTER a file that is given by digest only (the empty blob, always present)
+			ar.OutputFiles = []*pb.OutputFile{{Path: "out/e", Digest: &pb.Digest{Hash: vlib.Sha(nil), SizeBytes: 0}}, {Path: "out/f", Digest: d, Contents: u.wire}}
+			if d == nil {
+				ar.OutputFiles[1].Digest = &pb.Digest{Hash: vlib.Sha(u.wire), SizeBytes: int64(len(u.wire))}
 			}
 		case "ac_stdout":
 			ar.StdoutRaw, ar.StdoutDigest = u.wire, d
